@@ -170,17 +170,22 @@ class Body:
                 continue
             return r
 
-    def arg_param(self, e):
-        """If `e` is (a reborrow of) one of the method's parameters return its index, else None."""
+    def arg_param(self, e, impl_deref=False):
+        """If `e` is (a reborrow of) one of the method's parameters return its index, else None.
+        With impl_deref, an auto-deref through `Impl<T>: Deref<Target = T>` is accepted as well
+        (the adapter hop from `&Impl<T>` to `&T` in receiver position)."""
         e = strip(e)
-        adj = [a["kind"] for a in real_adjusts(e)]
-        if any(a not in REBORROW_OK for a in adj):
+        for a in real_adjusts(e):
+            if a["kind"] in REBORROW_OK:
+                continue
+            if impl_deref and a["kind"] == "Deref(Overloaded)" and a["target"] == "EntraitT":
+                continue
             return None
         # explicit `&*p`
         if e["k"] == "addrof":
             inner = strip(e["e"])
             if inner["k"] == "unary" and inner["op"] == "Deref":
-                return self.arg_param(inner["e"])
+                return self.arg_param(inner["e"], impl_deref)
             return None
         if e["k"] == "local":
             return self.env.get(e["hir_id"])
